@@ -675,6 +675,24 @@ pub fn random_op(w: &World, r: &mut Rng, profile: &str) -> Op {
         }
         return Op::new("parse", &[]).s(*r.pick(&["<a xml:id='i1'><b xml:id='i2'/>t</a>", "<a><b xml:id=' i3 '/><c xml:id='x  y'/></a>"]));
     }
+    if profile == "xmlid" && r.chance(3, 5) {
+        // parsed documents with an xml:id index; elements carrying an ID are removed, new nodes are created (the arena hands
+        // the freed slots out again) and attached under the same documents: the index must never hand out what was removed
+        let with_id: Vec<usize> = elems.iter().copied().filter(|i| w.xot.get_attribute(w.h(*i), w.xot.xml_id_name()).is_some()).collect();
+        let loose: Vec<usize> = elems.iter().copied().filter(|i| w.xot.parent(w.h(*i)).is_none()).collect();
+        let housed: Vec<usize> = elems.iter().copied().filter(|i| w.xot.parent(w.h(*i)).is_some()).collect();
+        let roll2 = r.below(20);
+        if roll2 < 3 || elems.is_empty() {
+            return Op::new("parse", &[]).s(*r.pick(&["<a xml:id='i1'><b xml:id='i2'/>t</a>", "<a><b xml:id=' i3 '/><c xml:id='x  y'/></a>", "<a><b xml:id='i1'><c xml:id='i2'/></b><d/></a>"]));
+        }
+        if roll2 < 8 && !with_id.is_empty() {
+            return Op::new(if r.chance(3, 4) { "remove" } else { "detach" }, &[*r.pick(&with_id)]);
+        }
+        if roll2 < 13 || loose.is_empty() || housed.is_empty() {
+            return Op::new("new_element", &[]).name(&ns, &ln);
+        }
+        return Op::new(*r.pick(&["append", "prepend"]), &[*r.pick(&housed), *r.pick(&loose)]);
+    }
     if profile == "ns" && !elems.is_empty() && r.chance(1, 2) {
         let e = *r.pick(&elems);
         let uris = ["u1", "u2", "u3", "u4"];
